@@ -190,6 +190,44 @@ CLAIMED = {
         note=COMMON_NOTE + "Relies on view scores using whole-frame statistics (C06).",
         technique="Coq model over Q + three-way correspondence",
     ),
+
+    "C17": dict(
+        category="proof",
+        text=("Theorems (Props/C17.v, closed): truncate=True is the index of the first 262143 tokens of every document "
+              "(the model cuts the token stream first, as the repaired code does), documents at or below the limit are "
+              "unaltered, and the linear-time model variant the check executes is proved equal to the model. The check "
+              "indexes real documents of length limit-2 .. limit+5 and 2x limit (first / middle / last in a batch, markers "
+              "and phrases on both sides of the limit, a tail-only term) with truncate True/False and compares tf, df, "
+              "lengths and phrases three-way; truncate=False must raise ValueError (oracle; the general rejection theorem "
+              "is not proved)."),
+        design_ref="DESIGN.md 7 (C17)",
+        note=COMMON_NOTE + "Extraction maps Coq's quadratic List.rev to OCaml's List.rev (the only Extract Constant). No axioms.",
+        technique="Coq proof (definition + fast-variant equality) + three-way correspondence at the real limit",
+    ),
+    "C18": dict(
+        category="proof",
+        text=("Storage state machine (Store/Store.v) with closed theorems (Props/C18.v): a new index file is appended under a "
+              "fresh name (number of directory entries) and never overwrites one, the pickle state (metadata, filename) "
+              "re-loads exactly the original postings also after further indexes were written to the directory, earlier "
+              "files keep their content. PARTIAL for the OS: real file contents, np.memmap, pickle bytes and a fresh "
+              "interpreter are exercised by the check (histories with several indexes per directory, views incl. stepped "
+              "slices, same-process and subprocess round trips), not modelled."),
+        design_ref="DESIGN.md 7 (C18)",
+        note=COMMON_NOTE + "Assumes no file of the directory is deleted between writing and unpickling. No axioms.",
+        technique="Coq proof (directory invariant) + history-based differential check incl. fresh interpreters",
+    ),
+    "C20": dict(
+        category="other",
+        text=("Interleaving model (Conc/Conc.v): queries are programs of atomic actions (handle read + filtered-postings "
+              "cache fill, doc-freq cache, term-freq cache, the handle reset of slicing) on the shared state of Purity.v; "
+              "the check runs 2..16 real threads released from a barrier at switch intervals down to 1 microsecond against "
+              "shared arrays and views, compares with serial execution on identical fresh pools and with the model under "
+              "seeded schedules. The schedule-independence theorem is in progress; real preemption points and dict "
+              "atomicity under the GIL are assumed."),
+        design_ref="DESIGN.md 7 (C20)",
+        note=COMMON_NOTE + "The model's schedule is unrelated to the real scheduler; atomicity of each action assumed.",
+        technique="Coq interleaving model + threaded differential check (proof in progress)",
+    ),
 }
 
 NOT_YET = "no check registered in this revision (model/proof under construction; see DESIGN.md section 7)"
